@@ -382,7 +382,7 @@ def bounded(tier, seed):
     res = native("steppers.py", {"seed": seed, "reps": reps}, timeout=3000)
     if not res.get("ok"):
         raise RuntimeError(f"native driver failed: {res}")
-    return [{"name": "solvers_vs_amplification_factor", "bound": f"5 solvers x 2 backends x {reps} random (a, b, dt, steps, t_start, state) instances on UnitGrid([3]); adaptive euler / runge-kutta on both backends: t_final = t_end and global error <= accepted steps x tolerance (autonomous and time-dependent right-hand sides), RKF45 evaluation times and exact quadrature of cubics",
+    return [{"name": "solvers_vs_amplification_factor", "bound": f"5 solvers x 2 backends x {reps} random (a, b, dt, steps, t_start, state) instances on UnitGrid([3]); adaptive euler / runge-kutta on both backends: t_final = t_end and global error <= accepted steps x tolerance (autonomous and time-dependent right-hand sides), RKF45 evaluation times and exact quadrature of cubics; adaptive Euler: stage time of the reused rate (two accepted steps on du/dt = b t, both backends); implicit / Crank-Nicolson on multi-axis states with vanishing leading entries (2-d scalar, vector, collection)",
              "cases": res["cases"], "failures": res["failures"]}]
 
 
